@@ -81,11 +81,6 @@ pub broadcast proof fn axiom_vec_len_bound(v: &Vec<u8>)
 pub broadcast proof fn axiom_bm_len_bound(v: &BytesMut)
     ensures #[trigger] bmview(v).len() <= 0x8000_0000_0000,
 {}
-/// T6': the UTF-8 encoding of the two ASCII characters "v4" is 0x76 0x34
-#[verifier::external_body]
-pub proof fn axiom_utf8_v4()
-    ensures utf8(seq!['v', '4']) == seq![0x76u8, 0x34u8],
-{}
 /// T12: `str::starts_with(&str)` compares UTF-8 bytes; `str::get(n..)` cuts at byte n when that is a char boundary
 /// (it is one whenever the byte before it is ASCII)
 #[verifier::external_body]
@@ -98,10 +93,23 @@ pub broadcast proof fn axiom_str_get_from(s: &str, i: core::ops::RangeFrom<usize
         (r matches Some(t) ==> i.start <= utf8(s@).len() && utf8(t@) == utf8(s@).subrange(i.start as int, utf8(s@).len() as int))
         && (r is None ==> !(1 <= i.start <= utf8(s@).len() && utf8(s@)[i.start - 1] < 128)),
 {}
-/// T6'': the UTF-8 encoding of the four ASCII characters "enr:" is 0x65 0x6e 0x72 0x3a
+/// T13: `Hash for Vec<u8>` feeds a function of the contents
 #[verifier::external_body]
-pub proof fn axiom_utf8_enr()
-    ensures utf8(seq!['e', 'n', 'r', ':']) == seq![0x65u8, 0x6eu8, 0x72u8, 0x3au8],
+pub proof fn axiom_hash_tok_vec(a: &Vec<u8>, b: &Vec<u8>)
+    ensures a@ == b@ ==> hash_tok(a) == hash_tok(b),
+{}
+/// T14: slicing an ASCII String by a byte range that lies inside it does not panic and yields those characters
+#[verifier::external_body]
+pub broadcast proof fn axiom_string_index_range(s: &String, i: core::ops::Range<usize>, o: &str)
+    ensures
+        (is_ascii_chars(s@) && i.start <= i.end <= s@.len()) ==> #[trigger] vstd::std_specs::core::IndexSpec::index_req(s, &i),
+        (is_ascii_chars(s@) && #[trigger] string_index_rel::<core::ops::Range<usize>>(s, i, o)) ==> o@ == s@.subrange(i.start as int, i.end as int),
+{}
+#[verifier::external_body]
+pub broadcast proof fn axiom_string_index_from(s: &String, i: core::ops::RangeFrom<usize>, o: &str)
+    ensures
+        (is_ascii_chars(s@) && i.start <= s@.len()) ==> #[trigger] vstd::std_specs::core::IndexSpec::index_req(s, &i),
+        (is_ascii_chars(s@) && #[trigger] string_index_rel::<core::ops::RangeFrom<usize>>(s, i, o)) ==> o@ == s@.subrange(i.start as int, s@.len() as int),
 {}
 /// T2: ordering of byte slices is lexicographic
 #[verifier::external_body]
@@ -198,7 +206,7 @@ pub broadcast proof fn axiom_ip6_len(a: std::net::Ipv6Addr)
 {}
 
 pub broadcast group group_trusted {
-    axiom_slice_eq, axiom_slice_obeys, axiom_starts_with_str, axiom_str_get_from, axiom_bytes_from_vec, axiom_bytes_from_vec_obeys, axiom_vec_len_bound, axiom_bm_len_bound, axiom_arr_eq, axiom_arr_obeys, axiom_vec_eq, axiom_vec_obeys, axiom_string_str_eq, axiom_string_str_obeys, axiom_string_refstr_eq, axiom_string_refstr_obeys, axiom_lossy_v4, axiom_slice_ord, axiom_slice_pord_obeys,
+    axiom_slice_eq, axiom_slice_obeys, axiom_string_index_range, axiom_string_index_from, axiom_starts_with_str, axiom_str_get_from, axiom_bytes_from_vec, axiom_bytes_from_vec_obeys, axiom_vec_len_bound, axiom_bm_len_bound, axiom_arr_eq, axiom_arr_obeys, axiom_vec_eq, axiom_vec_obeys, axiom_string_str_eq, axiom_string_str_obeys, axiom_string_refstr_eq, axiom_string_refstr_obeys, axiom_lossy_v4, axiom_slice_ord, axiom_slice_pord_obeys,
     axiom_vecu8_ord, axiom_vecu8_ord2, axiom_vecu8_borrow,
     axiom_contains_borrowed, axiom_maps_borrowed, axiom_removed_borrowed, axiom_vecu8_cmp,
     axiom_vec_ref, axiom_str_ref, axiom_vec_of, axiom_vec_from_str, axiom_vec_from_slice, axiom_vec_from_str_obeys, axiom_vec_from_slice_obeys, axiom_array_ref,
